@@ -46,6 +46,9 @@ HunkLayouts == UNION { Compositions(SortedSeq(S)) : S \in SUBSET (1..P) }
 BandStates ==
          [st : {"absent"}, hunks : {<<>>}, off : {0}]
     \cup [st : {"nohead"}, hunks : {<<>>, << <<1>> >>}, off : {0}]
+    \* a directory whose head is gone while its tail (and perhaps a hunk) is still there: what a
+    \* delete killed inside the recursive removal of the version can leave; not an existing version
+    \cup [st : {"noheadtail"}, hunks : {<<>>, << <<1>> >>}, off : {0}]
     \cup [st : {"incomplete", "complete"}, hunks : HunkLayouts, off : Offsets]
 
 \* an entry: path index i recorded by band b in hunk number n (mt identifies where it came from)
@@ -64,9 +67,9 @@ FsOf(l) ==
      bands |-> [b \in {BandIds[i] : i \in {j \in 1..B : l[j].st # "absent"}} |->
                   LET i == CHOOSE j \in 1..B : BandIds[j] = b
                       bs == l[i]
-                  IN [head |-> IF bs.st = "nohead" THEN "absent" ELSE "ok",
-                      tail |-> IF bs.st = "complete" THEN "ok" ELSE "absent",
-                      tc   |-> IF bs.st = "complete" THEN Len(bs.hunks) ELSE -1,
+                  IN [head |-> IF bs.st \in {"nohead", "noheadtail"} THEN "absent" ELSE "ok",
+                      tail |-> IF bs.st \in {"complete", "noheadtail"} THEN "ok" ELSE "absent",
+                      tc   |-> IF bs.st \in {"complete", "noheadtail"} THEN Len(bs.hunks) ELSE -1,
                       hunks |-> HunksOf(bs, b)]]]
 
 F == FsOf(lay)
